@@ -68,13 +68,23 @@ class SymWorld:
         self.ctx.inputs[name] = (a.z, 'real')
         self.ctx.extra_atoms.add(a.id)
         if lo is not None:
-            self.ctx.assumes.append(a.z >= self._zc(lo))
+            self._assume_z(a.z >= self._zc(lo), a, lo)
         if hi is not None:
-            self.ctx.assumes.append(a.z <= self._zc(hi))
+            self._assume_z(a.z <= self._zc(hi), a, hi)
         return x
 
     def reals(self, name, n, lo=None, hi=None):
         return [self.real('%s%d' % (name, i), lo, hi) for i in range(n)]
+
+    def _assume_z(self, z, atom, bound):
+        c = self.ctx
+        while len(c.assumes_at) < len(c.assumes):
+            c.assumes_at.append(None)
+        c.assumes.append(z)
+        at = {atom.id}
+        if isinstance(bound, self.S.Sym):
+            at |= bound.atoms()
+        c.assumes_at.append(frozenset(at))
 
     def _zc(self, v):
         import z3
@@ -95,9 +105,9 @@ class SymWorld:
         self.ctx.inputs[name] = (a.z, 'angle')
         self.ctx.extra_atoms.add(a.id)
         if lo is not None:
-            self.ctx.assumes.append(a.z > self._zc(lo) if strict_lo else a.z >= self._zc(lo))
+            self._assume_z(a.z > self._zc(lo) if strict_lo else a.z >= self._zc(lo), a, lo)
         if hi is not None:
-            self.ctx.assumes.append(a.z < self._zc(hi) if strict_hi else a.z <= self._zc(hi))
+            self._assume_z(a.z < self._zc(hi) if strict_hi else a.z <= self._zc(hi), a, hi)
         return S.Sym.atom(a)
 
     def unit3(self, name):
